@@ -1,4 +1,5 @@
 import ElexModel.Core.Boot
+import ElexModel.Core.BootAgg
 import ElexModel.Lemmas.Quantile
 import ElexModel.Gen.C06
 
@@ -234,3 +235,34 @@ example : 0 ≤ lowerQ (9/10) 10 ∧ lowerQ (9/10) 10 ≤ upperQ (9/10) 10 ∧ u
   quantile_levels_valid 10 (by omega) (9/10) (by norm_num) (by norm_num)
 
 end ElexModel.Boot
+
+/-! ### bridge: the aggregate formulas of the bootstrap model as dataflow of the source (indicator-matrix products as leaves) -/
+
+namespace ElexModel.BootAgg
+open ElexModel ElexModel.Boot
+
+/-- one draw of `divided_error_B_1 − divided_error_B_2` -/
+theorem bridge_error_diff (U : Units) (g b : ℕ) :
+    errorDiff U g b = Gen.C06.error_diff (zUnexp U g) (yzUnexp U g) (zTrain U g) (yzTrain U g)
+      (sumOn g U.nonrep (·.g) (fun u => nth u.e1 b)) (sumOn g U.nonrep (·.g) (fun u => nth u.e2 b))
+      (sumOn g U.nonrep (·.g) (fun u => nth u.e3 b)) (sumOn g U.nonrep (·.g) (fun u => nth u.e4 b)) := rfl
+
+/-- the centre of the interval: the reported (race-call adjusted) prediction at the top level, the recomputed quotient below -/
+theorem bridge_interval_centre (U : Units) (top : Bool) (c : Call) (g : ℕ) :
+    intervalCentre U top c g = Gen.C06.interval_centre top (adjustPred c (predMarginRaw U g))
+      (zUnexp U g) (yzUnexp U g) (zTrain U g) (yzTrain U g) (zTest U g) (yzTest U g) := by
+  unfold intervalCentre Gen.C06.interval_centre predMarginRecomputed predTurnout
+  cases top <;> rfl
+
+/-- predicted turnout and the two normalised columns of `get_aggregate_predictions` -/
+theorem bridge_pred_columns (U : Units) (g : ℕ) :
+    predTurnout U g = Gen.C06.pred_turnout (zUnexp U g) (zTrain U g) (zTest U g) ∧
+    predMarginRaw U g = Gen.C06.pred_margin (predMarginSum U g) (zUnexp U g) (zTrain U g) (zTest U g) := ⟨rfl, rfl⟩
+
+theorem bridge_boot_shape :
+    Gen.C06.draws_stored = ["self._is_top_level_aggregate(aggregate): self.divided_error_B_1 = divided_error_B_1; self.divided_error_B_2 = divided_error_B_2"] ∧
+    Gen.C06.pred_turnout_column = ["aggregate_z_total"] ∧
+    Gen.C06.raw_sums = ["super().get_aggregate_predictions(reporting_units, nonreporting_units, unexpected_units, aggregate, estimand)"] :=
+  ⟨rfl, rfl, rfl⟩
+
+end ElexModel.BootAgg
